@@ -67,6 +67,38 @@ where
         out.push(json!({"ty": "proj", "chunk": chunk, "consumed": cur.position(),
                         "res": match rp { Ok(p) => json!(["ok", proj_to_j(&p)]), Err(_) => json!(["err"]) }}));
     }
+    // other kinds of readers: a byte slice, two halves chained, a buffered reader
+    {
+        use std::io::{BufReader, Read};
+        let half = bytes.len() / 2;
+        let mut sl: &[u8] = bytes;
+        let before = sl.len();
+        let ra = A::deserialize(&mut sl, c);
+        out.push(json!({"ty": "aff", "chunk": "slice", "consumed": before - sl.len(),
+                        "res": match ra { Ok(p) => json!(["ok", aff_to_j(&p)]), Err(_) => json!(["err"]) }}));
+        let mut sl: &[u8] = bytes;
+        let rp = G::deserialize(&mut sl, c);
+        out.push(json!({"ty": "proj", "chunk": "slice", "consumed": before - sl.len(),
+                        "res": match rp { Ok(p) => json!(["ok", proj_to_j(&p)]), Err(_) => json!(["err"]) }}));
+        let mut ch = (&bytes[..half]).chain(&bytes[half..]);
+        let ra = A::deserialize(&mut ch, c);
+        let mut rest = vec![];
+        let _ = ch.read_to_end(&mut rest);
+        out.push(json!({"ty": "aff", "chunk": "chain", "consumed": bytes.len() - rest.len(),
+                        "res": match ra { Ok(p) => json!(["ok", aff_to_j(&p)]), Err(_) => json!(["err"]) }}));
+        let mut ch = (&bytes[..half]).chain(&bytes[half..]);
+        let rp = G::deserialize(&mut ch, c);
+        let mut rest = vec![];
+        let _ = ch.read_to_end(&mut rest);
+        out.push(json!({"ty": "proj", "chunk": "chain", "consumed": bytes.len() - rest.len(),
+                        "res": match rp { Ok(p) => json!(["ok", proj_to_j(&p)]), Err(_) => json!(["err"]) }}));
+        // a buffered reader may read ahead from the underlying stream; what it hands to the decoder is
+        // still exactly the encoding (consumption is not observable here and not reported)
+        let mut br = BufReader::with_capacity(16, Cursor::new(bytes.to_vec()));
+        let rp = G::deserialize(&mut br, c);
+        out.push(json!({"ty": "proj", "chunk": "bufreader", "consumed": if rp.is_ok() { bytes.len() } else { 0 },
+                        "res": match rp { Ok(p) => json!(["ok", proj_to_j(&p)]), Err(_) => json!(["err"]) }}));
+    }
     Value::Array(out)
 }
 
